@@ -149,4 +149,17 @@ var props = map[string]*propDef{
 			{Name: "proto.VerifC20Interval", Cfg: intMode},
 		},
 	},
+	"C19": {
+		ID: "C19", Level: "model_checking", Rule: ruleDefault,
+		Assumptions: append([]string{
+			"type-string bytes range over 7-bit ASCII (non-ASCII bytes enter Go's unicode tables in strings.TrimSpace/TrimFunc, which are not interpreted)",
+			"time.LoadLocation is a nondeterministic stub (error or an opaque non-nil location)",
+		}, baseAssumptions...),
+		Harnesses: []harnessDef{
+			{Name: "proto.VerifC19Relation", Quick: map[string]int{"maxlen": 3}, Thorough: map[string]int{"maxlen": 5}},
+			{Name: "proto.VerifC19InferTotal", Quick: map[string]int{"maxlen": 4}, Thorough: map[string]int{"maxlen": 6}},
+			{Name: "proto.VerifC19Templates"},
+			{Name: "proto.VerifC19RelationVocab", Quick: map[string]int{"maxparam": 1}, Thorough: map[string]int{"maxparam": 2}},
+		},
+	},
 }
